@@ -63,7 +63,7 @@ fn check(text: &[u8], model: &Model<'_>, classes: &[String], rng: &mut Rng, rep:
         strings.push(d.print());
     }
     // single-character edits of a few valid descriptors, arbitrary strings
-    for d in valid.iter().take(if slow { 1 } else { 3 }) {
+    for d in valid.iter().filter(|d| d.print().len() < 200).take(if slow { 1 } else { 3 }) {
         strings.extend(single_edits(&d.print()));
     }
     for _ in 0..(if slow { 4 } else { 30 }) {
@@ -75,6 +75,9 @@ fn check(text: &[u8], model: &Model<'_>, classes: &[String], rng: &mut Rng, rep:
         let rc = cache.sig(s);
         rep.count("evaluations", 1);
         rep.count("differential_comparisons", 1);
+        if s.contains(&"[".repeat(255)) {
+            rep.count("descriptors_with_ge255_array_dimensions", 1);
+        }
         let mk = |who: &str, got: &Option<NSig>| {
             let mut d = mapping_detail(text, "");
             d.set("descriptor", Json::s(s.clone()));
